@@ -119,7 +119,7 @@ fn permutations(inner: &[Ev], must_start_with_pre: bool) -> Vec<Vec<Ev>> {
 
 pub fn run() {
 	let cx = ctx();
-	cx.note("rule", json!("irregular-but-tolerated inputs: every permutation of a frame's pre/post/item events that keeps each character's pre before its post (before 2.2: starting with a pre), x junk after Game End inside the raw element (1, 2, size(Game End)+1 bytes that are not a second Game End), x unknown events (inside the frame, before Game End, after Game End, between two Message Splitter blocks of the Gecko list, a whole split unknown message ahead of the Gecko list), x Game End absent or doubled, x metadata absent - all combinations, in all three framing regimes, on three base histories (follower absent; leader absent + whole Ice-Climbers pair absent; Gecko list filling its last block exactly); plus the canonical history space of C04 and Gecko lists of 512/1024/1536/700/66000 bytes. For each input the reader accepts: the written .slp declares exactly the measured length of its raw element (measured from the file length and the harness's own encoding of the metadata), reads again, the re-read game equals the first on start, end, metadata, gecko codes and all frame data, and writing it again reproduces the written file. Every case is non-trivial (carries at least a non-canonical order or another irregularity, except the identity permutation)"));
+	cx.note("rule", json!("metadata strings of every length 0..=255 bytes as key and as value (canonical, no Game End, unknown event); irregular-but-tolerated inputs: every permutation of a frame's pre/post/item events that keeps each character's pre before its post (before 2.2: starting with a pre), x junk after Game End inside the raw element (1, 2, size(Game End)+1 bytes that are not a second Game End), x unknown events (inside the frame, before Game End, after Game End, between two Message Splitter blocks of the Gecko list, a whole split unknown message ahead of the Gecko list), x Game End absent or doubled, x metadata absent - all combinations, in all three framing regimes, on three base histories (follower absent; leader absent + whole Ice-Climbers pair absent; Gecko list filling its last block exactly); plus the canonical history space of C04 and Gecko lists of 512/1024/1536/700/66000 bytes. For each input the reader accepts: the written .slp declares exactly the measured length of its raw element (measured from the file length and the harness's own encoding of the metadata), reads again, the re-read game equals the first on start, end, metadata, gecko codes and all frame data, and writing it again reproduces the written file. Every case is non-trivial (carries at least a non-canonical order or another irregularity, except the identity permutation)"));
 	cx.note("exhaustive", json!(true));
 	cx.note("assumptions", json!(["inputs the reader rejects are outside the property's quantifier; their number is reported as not_accepted"]));
 	let versions: Vec<(u8, u8)> = if cx.quick() { vec![(0, 1), (2, 0), (2, 2), (3, 0), (3, 16)] } else { spec::v_rep() };
@@ -260,6 +260,24 @@ pub fn run() {
 				let mut a = crate::gen::per_version_replay(v, Fill::A);
 				a.gecko = Gecko::Live { live, nonzero_pad: live == 700 };
 				jobs.push((record(&a).doc.assemble(), a.describe(), "gecko"));
+			}
+		}
+	}
+	// metadata strings of EVERY length 0..=255 bytes, as key and as value (the reader and the writer each choose a
+	// length encoding; they have to agree on all of them), on a canonical replay, one without Game End and one with an
+	// unknown event in a frame
+	for len in 0..=255usize {
+		let mut a = base_replay((3, 16), vec![pc(0, false), pc(2, false)], 1);
+		a.metadata = Some(vec![("k".repeat(len), crate::ubj::MVal::Str("v".repeat(255 - len))), ("x".into(), crate::ubj::MVal::Str("é".repeat(len / 2) + &"w".repeat(len % 2)))]);
+		match len % 3 {
+			0 => jobs.push((record(&a).doc.assemble(), format!("metadata key of {} bytes, values of {} and {} bytes", len, 255 - len, len), "meta-string-length")),
+			1 => {
+				a.ends = 0;
+				jobs.push((record(&a).doc.assemble(), format!("metadata key of {} bytes, values of {} and {} bytes, no Game End", len, 255 - len, len), "meta-string-length"));
+			}
+			_ => {
+				let doc = record(&a).doc;
+				jobs.push((crate::checks::c08::with_unknown(&doc, &[(0, 2)]), format!("metadata key of {} bytes, values of {} and {} bytes, unknown event", len, 255 - len, len), "meta-string-length"));
 			}
 		}
 	}
